@@ -15,7 +15,8 @@ Definition res_json (r : res) : json :=
 
 Definition run_codec (c : json) : json :=
   let op := jget_str "op" c in
-  if op =? "norm" then res_json (norm gen_env (jget "j" c) (TNamed (jget_str "kind" c)))
+  if op =? "norm" then res_json (norm gen_env false (jget "j" c) (TNamed (jget_str "kind" c)))
+  else if op =? "gobnorm" then res_json (norm gen_env true (jget "j" c) (TNamed (jget_str "kind" c)))
   else jerr "unknown op".
 
 Definition main_codec (line : string) : string := run_line run_codec line.
